@@ -75,12 +75,12 @@ Numbering(res, gaps) == Walk(res, gaps, 1, [seq |-> <<>>, ridx |-> <<>>, prev |-
 \* the same thing said without a loop (lemma NumberingLemma in MC_Mapping2D: both agree)
 NucUpTo(res, k) == { p \in 1..k : res[p].nuc }
 PrevNuc(res, k) == LET S == NucUpTo(res, k - 1) IN IF S = {} THEN 0 ELSE Max(S)
-RECURSIVE SumSet(_, _)
-SumSet(S, g) == IF S = {} THEN 0 ELSE LET x == CHOOSE y \in S : TRUE IN g[x] + SumSet(S \ {x}, g)
+RECURSIVE SumOverSet(_, _)
+SumOverSet(S, g) == IF S = {} THEN 0 ELSE LET x == CHOOSE y \in S : TRUE IN g[x] + SumOverSet(S \ {x}, g)
 IndexDecl(res, gaps, k) ==
   IF ~res[k].nuc THEN 0
   ELSE LET S == NucUpTo(res, k) IN
-       Cardinality(S) + SumSet(S, [q \in S |-> IF PrevNuc(res, q) = 0 THEN 0 ELSE PH(res, gaps, PrevNuc(res, q), q)])
+       Cardinality(S) + SumOverSet(S, [q \in S |-> IF PrevNuc(res, q) = 0 THEN 0 ELSE PH(res, gaps, PrevNuc(res, q), q)])
 
 \* ------------------------------------------------------------------ input pairs
 \* entries that can be encoded at all: both residues present, nucleotides, different
@@ -202,19 +202,20 @@ RECURSIVE PlaceFrom(_, _, _, _, _, _)
 PlaceFrom(policy, res, lifted, lw, k, rows) ==
   IF k > Len(lifted) THEN rows
   ELSE PlaceFrom(policy, res, lifted, lw, k + 1,
-                 IF lifted[k].lw = lw /\ LowFirst(res, lifted[k]) /\ res[lifted[k].a].nuc /\ res[lifted[k].b].nuc
+                 IF lifted[k].lw = lw /\ LowFirst(res, lifted[k])
                  THEN PlaceOne(policy, rows, lifted[k]) ELSE rows)
 RowsOfClass(policy, res, lifted, lw) == PlaceFrom(policy, res, lifted, lw, 1, <<>>)
 
 RowIsMatching(row) == \A x \in 1..Len(row) : \A y \in 1..Len(row) :
                          x < y => {row[x].a, row[x].b} \cap {row[y].a, row[y].b} = {}
 
-\* a row written into a fresh BPSEQ pair column: the last writer of a cell wins
+\* a row written into a fresh BPSEQ pair column: the last writer of a cell wins; a pair with a
+\* residue that has no BPSEQ index (not a nucleotide) is skipped
 RECURSIVE WriteFrom(_, _, _, _)
 WriteFrom(ridx, row, k, f) ==
   IF k > Len(row) THEN f
   ELSE LET i == ridx[row[k].a]  j == ridx[row[k].b] IN
-       WriteFrom(ridx, row, k + 1, [f EXCEPT ![i] = j, ![j] = i])
+       WriteFrom(ridx, row, k + 1, IF i = 0 \/ j = 0 THEN f ELSE [f EXCEPT ![i] = j, ![j] = i])
 LastWriter(n, ridx, row) == WriteFrom(ridx, row, 1, [i \in 1..n |-> 0])
 \* the 5'->3' entries of such a column, and the skeleton of the text written from them: every
 \* entry writes an opening bracket at its index and a closing one at its partner, in index order,
